@@ -54,12 +54,29 @@ PAIR_CLASSES = ("Network", "InteractingNetworks", "GeoNetwork",
                 "InterSystemRecurrenceNetwork", "CouplingAnalysis")
 
 
+# derived networks: computed, briefly used and dropped -- perpetrators only
+DERIVED = [("copy", {}), ("undirected_copy", {}), ("splitted_copy", {}),
+           ("splitted_copy", {"node": 0, "proportion": 0.3}),
+           ("permuted_copy", {"permutation": "@perm"}),
+           ("subnetwork", {"nodes": "@half1"})]
+
+
+def derived_for(spec):
+    if spec.family != "network":
+        return []
+    cls = spec.cls()
+    return [q for q in DERIVED if hasattr(cls, q[0])]
+
+
 def all_queries(spec):
-    return queries_for(spec) + RANDOMISED.get(spec.name, [])
+    return queries_for(spec) + RANDOMISED.get(spec.name, []) + \
+        derived_for(spec)
 
 
 def is_random(spec, name):
-    return any(name == n for n, _ in RANDOMISED.get(spec.name, []))
+    """Perpetrator-only calls: randomised generators and derived networks."""
+    return any(name == n for n, _ in RANDOMISED.get(spec.name, [])) or (
+        spec.family == "network" and any(name == n for n, _ in DERIVED))
 
 
 class C06(Machine):
@@ -78,7 +95,8 @@ class C06(Machine):
                    "same_array_topology", "copy_topology",
                    "randomised_perpetrator", "caller_arrays_checked",
                    "shared_object_queries_checked", "both_raised",
-                   "repeat_checked", "static_helper_called")
+                   "repeat_checked", "static_helper_called",
+                   "derived_network_perpetrator")
     real_vs_stub = {"real": ["every memoising class: public constructors and "
                              "all discovered query patterns, the class-level "
                              "LRU with its capacity knob"],
@@ -336,6 +354,12 @@ class C06(Machine):
                 random.seed(step + 17)
             with cwd(odir):
                 val = C.call(invoke, obj, name, kw, model)
+                if rnd and hasattr(val, "adjacency"):
+                    # a derived network is used a little and dropped
+                    R.probe("derived_network_perpetrator")
+                    for qn in ("degree", "path_lengths", "nsi_degree"):
+                        C.call(getattr(val, qn))
+                    val = None
                 val_s = snap(val)
                 if not rnd:
                     val2 = C.call(invoke, obj, name, kw, model)
